@@ -45,7 +45,14 @@ RULE = ("random discrete BNs (quick: 1-6 nodes, cards 1-5, 0-4 parents; thorough
         "table with > 1000 entries (cards up to 9 there, so that numpy's elision can apply). case idx % 6: 0,1 (and 2 "
         "in quick) -> all four writer/reader pairs; (2,) 3, 4 -> XMLBIF, UAI, NET only (BIFReader needs ~2 s per "
         "construction); 5 -> Markov network through UAI (2-6/7 nodes, cards 2-5, cycles, duplicate and unary factors, "
-        "isolated nodes, tiny values). save/load: XMLBIF and UAI on every BN, BIF on a quarter of the BIF cases. "
+        "isolated nodes, a single-variable network now and then, tiny values, potentials 1e-12..1e16 mixed in one "
+        "factor, integers as floats). value style 'extreme': 5e-324, 1e-300, 2.5e-200, 1e-17, 0.9999999999999999, "
+        "exact 0/1; state style 'digits': digits-only string labels. After every correct fresh round trip the SAME "
+        "writer is asked for str() again, before and after all its public getters were called, the SAME reader for "
+        "get_model() again after the first model was zeroed / had its state lists reversed / lost a node and the "
+        "reader's getters were called, and the read-back model is written and read once more (classes for XMLBIF, "
+        "UAI, NET; save->load->save->load for the save/load cases); each answer is judged by the same oracle. "
+        "save/load: XMLBIF and UAI on every BN, BIF on a quarter of the BIF cases. "
         "non-trivial: BN with >= 2 nodes and >= 1 edge, or MN with >= 1 edge; distinct by digest of the whole spec")
 ASSUMPTIONS = ["brute-force joint of the spec (<= 20 000 cells) is the reference",
                "exact formats compared at 1e-15 relative per table entry / 1e-13 per joint cell; NET at 0.5e-4 "
@@ -157,6 +164,13 @@ def unique_names(rng, n, style):
 def state_list(rng, var, k, style):
     if style == "int":
         return list(range(k))
+    if style == "digits":          # digits-only labels given as strings (what the readers hand back for int names)
+        base = rng.choice([0, 1, 10, 100])
+        step = rng.choice([1, 1, 5])
+        l = [str(base + step * i) for i in range(k)]
+        if rng.random() < 0.3:
+            rng.shuffle(l)
+        return l
     if style == "neutral":
         return [f"s{i}" for i in range(k)]
     if style in ("kw", "exact"):
@@ -218,6 +232,19 @@ def column(rng, r, style):
         i = max(range(r), key=lambda t: col[t])
         col[i] = 1.0 - sum(c for t, c in enumerate(col) if t != i)
         return col
+    if style == "extreme":
+        # boundary floats: denormal minimum, 1e-300, 1e-17, the float just below 1, exact 0 / 1; the dominant entry
+        # is 1 - (sum of the others), which is 1.0 or 0.9999999999999999 in float64
+        if rng.random() < 0.3:
+            col = [0.0] * r
+            i, j = rng.sample(range(r), 2)
+            col[i], col[j] = 1.0 - 1e-16, 1e-16
+            return col
+        col = [rng.choice([0.0, 0.0, 5e-324, 1e-300, 2.5e-200, 1e-17, 1e-12]) for _ in range(r)]
+        i = rng.randrange(r)
+        col[i] = 0.0
+        col[i] = 1.0 - sum(col)
+        return col
     # "magn": many magnitudes, renormalised
     col = [rng.choice(MAGN) * (1.0 if rng.random() < 0.5 else (0.5 + rng.random())) for _ in range(r)]
     if sum(col) <= 0:
@@ -232,7 +259,7 @@ def table(rng, r, q, style):
     for _ in range(q):
         st = style
         if style == "mixed":
-            st = rng.choice(["grid", "magn", "dec", "det"])
+            st = rng.choice(["grid", "magn", "dec", "det", "extreme"])
         cols.append(column(rng, r, st))
     return [[cols[j][i] for j in range(q)] for i in range(r)]
 
@@ -243,8 +270,8 @@ def bn_spec(rng, tier, big=False):
     max_n, max_card, max_par = (8, 6, 5) if thorough else (6, 5, 4)
     max_joint = 20000 if thorough else 4096
     name_style = rng.choice(["neutral", "plain", "plain", "plain", "kw", "exact"])
-    state_style = rng.choice(["neutral", "plain", "plain", "plain", "kw", "int", "exact"])
-    val_style = rng.choice(["grid", "grid", "magn", "dec", "dec", "mixed", "det"])
+    state_style = rng.choice(["neutral", "plain", "plain", "plain", "kw", "int", "exact", "digits"])
+    val_style = rng.choice(["grid", "grid", "magn", "dec", "dec", "mixed", "mixed", "det", "extreme"])
     if big:
         # one family whose table has > 1000 entries (numpy's print threshold)
         while True:
@@ -362,9 +389,21 @@ def mn_spec(rng, tier):
             spec["card"][v] = c
             spec["states"][v] = list(range(c)) if spec["kind"] == "id" else [f"{v}_s{i}" for i in range(c)]
             spec["factors"].append({"vars": [v], "values": [rng.choice(gen.GRID) * rng.randint(1, 4) for _ in range(c)]})
-    style = rng.choice(["plain", "plain", "tiny", "int"])
+    if rng.random() < 0.08:
+        # single-variable Markov network: one node, no edge, one unary factor
+        v = spec["nodes"][0]
+        f0 = next((f for f in spec["factors"] if f["vars"] == [v]), None) or \
+            {"vars": [v], "values": [rng.choice(gen.GRID) * rng.randint(1, 4) for _ in range(spec["card"][v])]}
+        spec = {"nodes": [v], "edges": [], "card": {v: spec["card"][v]}, "states": {v: spec["states"][v]},
+                "factors": [f0], "kind": spec["kind"]}
+    style = rng.choice(["plain", "plain", "tiny", "int", "range"])
     for f in spec["factors"]:
-        if style == "tiny":
+        if style == "range":      # potentials from 1e-12 to 1e16 mixed within one factor, integers written as floats
+            f["values"] = [x * rng.choice([1.0, 1.0, 1e-12, 1e-5, 1e8, 1e16]) if rng.random() < 0.7
+                           else float(rng.choice([0, 1, 3, 100000, 123456789])) for x in f["values"]]
+            if not any(f["values"]):
+                f["values"][0] = 1.0
+        elif style == "tiny":
             f["values"] = [x * rng.choice([1.0, 1.0, 1e-6, 1e-11]) for x in f["values"]]
         elif style == "int":
             f["values"] = [float(rng.randint(0, 9)) for _ in f["values"]]
@@ -846,12 +885,15 @@ def write_read(ctx, fmt, model, n_jobs=1, lift_threshold=False):
     """str(Writer(model)) -> Reader(string=...).get_model().  Returns (text, read-back model | None, problems)."""
     W, R = classes(fmt)
 
+    objs = {}
+
     def write():
+        objs["writer"] = W(model)
         if lift_threshold:
             import sys
             with np.printoptions(threshold=sys.maxsize):
-                return str(W(model))
-        return str(W(model))
+                return str(objs["writer"])
+        return str(objs["writer"])
 
     text = ctx.call(write)
     if ctx.failed(text):
@@ -861,13 +903,99 @@ def write_read(ctx, fmt, model, n_jobs=1, lift_threshold=False):
 
     def read():
         r = R(string=text, n_jobs=n_jobs) if fmt == "bif" else R(string=text)
+        objs["reader"] = r
         return r.get_model()
 
     back = ctx.call(read)
     if ctx.failed(back):
         return text, None, [Problem(f"c09:exception:{back.type}@{back.where}", f"{fmt} reader raised {back!r} on the "
                                     f"writer's own output")]
+    LAST.update(objs)
     return text, back, []
+
+
+LAST = {}        # writer / reader objects of the most recent successful write_read (for the reuse sequences)
+
+WRITER_GETTERS = {"bif": ["get_variables", "get_states", "get_properties", "get_parents", "get_cpds"],
+                  "xmlbif": ["get_variables", "get_states", "get_properties", "get_definition", "get_values"],
+                  "uai": ["get_nodes", "get_domain", "get_functions", "get_tables"],
+                  "net": ["get_variables", "get_cpds", "get_properties", "get_states", "get_parents"]}
+READER_GETTERS = {"bif": ["get_variables", "get_states", "get_parents", "get_edges", "get_network_name"],
+                  "xmlbif": ["get_variables", "get_edges", "get_states", "get_parents", "get_values", "get_property"],
+                  "uai": ["get_network_type", "get_variables", "get_domain", "get_edges", "get_tables"],
+                  "net": ["get_variables", "get_states", "get_parents", "get_values", "get_edges", "get_network_name"]}
+
+
+def reuse_sequences(ctx, fmt, judge, writer, reader, text, back, n_jobs=1, markov=False, gen2=True):
+    """ONE writer object asked for str() again (before and after its public getters were called), ONE reader
+    object asked for get_model() again after the first model was edited in place and the reader's getters were
+    called, and the read-back model written and read once more (second generation).  Every answer is judged by
+    the same oracle (`judge(model) -> problems`).  Returns a list of (stage, problems)."""
+    W, R = classes(fmt)
+    out = []
+
+    def read_text(t):
+        m = ctx.call(lambda: (R(string=t, n_jobs=n_jobs) if fmt == "bif" else R(string=t)).get_model())
+        if ctx.failed(m):
+            return [Problem(f"c09:exception:{m.type}@{m.where}", f"reader raised {m!r}")]
+        return judge(m)
+
+    # -- writer: str() twice, then getters, then str() again
+    seen = {text}
+    for stage in ("writer-second-str", "writer-str-after-getters"):
+        if stage == "writer-str-after-getters":
+            for g in WRITER_GETTERS[fmt]:
+                r = ctx.call(getattr(writer, g))
+                if ctx.failed(r):
+                    out.append((stage, [Problem(f"c09:exception:{r.type}@{r.where}", f"writer.{g}() raised {r!r}")]))
+        t = ctx.call(lambda: str(writer))
+        if ctx.failed(t):
+            out.append((stage, [Problem(f"c09:exception:{t.type}@{t.where}", f"str(writer) raised {t!r}")]))
+            continue
+        if t in seen:
+            out.append((stage, []))          # identical text: identical reading
+            continue
+        seen.add(t)
+        out.append((stage, read_text(t)))
+    # -- reader: edit the first model in place, call getters, get_model() again
+    try:
+        objs = list(back.get_factors()) if markov else list(back.get_cpds())
+        for c in objs:
+            c.values *= 0.0
+            for k in list(c.state_names):
+                c.state_names[k].reverse()
+        if len(list(back.nodes())) > 0:
+            back.remove_node(list(back.nodes())[0])
+    except Exception:
+        pass                                   # editing is only a perturbation; what is judged is the next answer
+    for g in READER_GETTERS[fmt]:
+        ctx.call(getattr(reader, g))
+    m2 = ctx.call(reader.get_model)
+    if ctx.failed(m2):
+        out.append(("reader-second-get-model", [Problem(f"c09:exception:{m2.type}@{m2.where}", f"second get_model() raised {m2!r}")]))
+        return out
+    out.append(("reader-second-get-model", judge(m2)))
+    # -- second generation through the classes (BIFReader is too slow for that: BIF does it through save/load)
+    if gen2 and fmt != "bif" and not out[-1][1]:
+        t2 = ctx.call(lambda: str(W(m2)))
+        if ctx.failed(t2):
+            out.append(("second-generation", [Problem(f"c09:exception:{t2.type}@{t2.where}", f"writer raised {t2!r} on a read-back model")]))
+        else:
+            out.append(("second-generation", read_text(t2)))
+    return out
+
+
+def report_reuse(ctx, fmt, results, text):
+    for stage, P in results:
+        if not P:
+            ctx.ok()
+            continue
+        key = f"c09:reuse:{fmt}:{stage}"
+        if fmt == "xmlbif" and stage == "writer-str-after-getters" and \
+                not any(p for st, pp in results if st == "writer-second-str" for p in pp):
+            # str() twice is fine; only calling the writer's public getters in between breaks the output
+            key = "c09:xmlbif:writer-getters-append"
+        ctx.violation(key, f"{fmt} {stage}: {P[0].key}: {P[0].what}", text=(text or "")[:600])
 
 
 def judge_bn(bn, back, fmt, J):
@@ -892,7 +1020,7 @@ def roundtrip_bn(ctx, bn, fmt, build_seed, n_jobs=1, lift_threshold=False, J=Non
     return model, text, back, P
 
 
-def roundtrip_mn(ctx, mn, build_seed):
+def roundtrip_mn(ctx, mn, build_seed, reuse=False):
     import random
     from rv import build
     model = build.markov_network(mn, rng=random.Random(build_seed))
@@ -910,6 +1038,14 @@ def roundtrip_mn(ctx, mn, build_seed):
                 P = compare_mn_uai(mn, mn_view(back), J)
         except Exception as e:
             P = [Problem("c09:uai:malformed-result", f"cannot read the read-back model: {type(e).__name__}: {e}")]
+    if not P and reuse and LAST.get("writer") is not None:
+        def judge(m):
+            try:
+                return compare_mn_uai(mn, mn_view(m), J)
+            except Exception as e:
+                return [Problem("c09:uai:malformed-result", f"cannot read the read-back model: {type(e).__name__}: {e}")]
+        report_reuse(ctx, "uai-markov", reuse_sequences(ctx, "uai", judge, LAST["writer"], LAST["reader"], text, back,
+                                                         markov=True), text)
     return model, text, P
 
 
@@ -1019,6 +1155,26 @@ def save_load(ctx, bn, model, fmt, text, P_class, J, with_ext, n_jobs):
         # the classifier re-keys class-path problems; compare on the raw keys recorded before attribution
         ctx.expect(a == b, "c09:saveload-disagrees",
                    f"load(filetype={fmt}) gives {a or 'a correct model'}, reader class gives {b or 'a correct model'}")
+        if not P and not ctx.failed(back):
+            # save -> load -> save -> load: the loaded model is itself a valid network and must round-trip again
+            path2 = path + ("2." + fmt if with_ext else "_2")
+            try:
+                r2 = ctx.call(back.save, path2, filetype=fmt)
+                back2 = r2 if ctx.failed(r2) else ctx.call(BayesianNetwork.load, path2, filetype=fmt, **kw)
+                if ctx.failed(back2):
+                    P2 = [Problem(f"c09:exception:{back2.type}@{back2.where}", f"raised {back2!r}")]
+                else:
+                    P2 = judge_bn(bn, back2, fmt, J)
+                if P2:
+                    ctx.violation(f"c09:reuse:{fmt}:save-load-second-generation",
+                                  f"save/load of the loaded model: {P2[0].key}: {P2[0].what}")
+                else:
+                    ctx.ok()
+            finally:
+                try:
+                    os.remove(path2)
+                except OSError:
+                    pass
     finally:
         try:
             os.remove(path)
@@ -1061,6 +1217,7 @@ def run_case(spec, ctx):
         n_jobs = spec.get("n_jobs", 1) if fmt == "bif" else 1
         model, text, back, P = roundtrip_bn(ctx, bn, fmt, seed, n_jobs=n_jobs, J=J)
         raw = list(P)
+        objs = dict(LAST)
         if P:
             cands = []
             if fmt == "bif" and bif_exact_keyword_names(bn):
@@ -1097,6 +1254,14 @@ def run_case(spec, ctx):
                 ctx.note("classified:" + k)
         report(ctx, P, fmt, text, nodes=bn["nodes"], parents={v: c["parents"] for v, c in bn["cpds"].items()},
                card=bn["card"])
+        n_entries = sum(len(c["table"]) * len(c["table"][0]) for c in bn["cpds"].values())
+        if not raw and objs.get("writer") is not None and objs.get("reader") is not None and \
+                (fmt != "uai" or n_entries <= 600):      # UAIReader re-parses the whole file once per function
+            # object reuse / call sequences (only when the fresh-object round trip is right, so that nothing is masked)
+            ctx.feature("reuse:" + fmt)
+            res = reuse_sequences(ctx, fmt, lambda m, fmt=fmt: judge_bn(bn, m, fmt, J), objs["writer"], objs["reader"],
+                                  text, back, n_jobs=n_jobs)
+            report_reuse(ctx, fmt, res, text)
         if fmt in SAVELOAD and (fmt != "bif" or spec.get("sl_bif", True)):
             ctx.feature("saveload:" + fmt)
             save_load(ctx, bn, model, fmt, text, raw, J, spec.get("sl_ext", True), n_jobs)
@@ -1105,7 +1270,7 @@ def run_case(spec, ctx):
 def run_mn(spec, ctx):
     mn = spec["mn"]
     seed = spec["build_seed"]
-    model, text, P = roundtrip_mn(ctx, mn, seed)
+    model, text, P = roundtrip_mn(ctx, mn, seed, reuse=True)
     if model is None:
         ctx.note("mn-invalid-skipped")
         return
